@@ -56,23 +56,25 @@ def drop_copy(d):
 
 
 def audit_one(name, a):
-    sd = os.path.join(ROOT, 'seeded', name)
+    sd = os.path.join(ROOT, a.dir, name)
     meta = json.load(open(os.path.join(sd, 'meta.json')))
     pid = meta['property']
     res = {'name': name, 'property': pid, 'summary': meta.get('summary', '')[:300]}
     d = make_copy(name)
     try:
         env = {'PYTHONPATH': d, 'PYTHONDONTWRITEBYTECODE': '1'}
-        if a.confirm:
+        has_demo = os.path.isfile(os.path.join(sd, 'demo.py'))
+        if a.confirm and has_demo:
             rc, out = sh([PY, os.path.join(sd, 'demo.py')], cwd=d, env=env, timeout=180)
             res['demo_clean_rc'] = rc
         rc, out = sh(['git', 'apply', os.path.join(sd, 'patch.diff')], cwd=d)
         if rc != 0:
             res['error'] = 'patch does not apply: ' + out[-300:]
             return res
-        if a.confirm:
+        if a.confirm and has_demo:
             rc, out = sh([PY, os.path.join(sd, 'demo.py')], cwd=d, env=env, timeout=180)
             res['demo_patched_rc'] = rc
+        if a.confirm:
             rc, out = sh([PY, '-m', 'pytest', '-q', '-x', '-p', 'no:cacheprovider', '--timeout=900'], cwd=d, env=env, timeout=1800)
             res['suite_patched_rc'] = rc
             res['suite_tail'] = out.strip().splitlines()[-1][-200:] if out.strip() else ''
@@ -87,6 +89,7 @@ def audit_one(name, a):
             res['checks'][c] = {'rc': rc, 'violations': len(viol), 'clauses': clauses[:4], 'wall_s': round(time.time() - t0, 1),
                                 'tail': out.strip().splitlines()[-1][-300:] if out.strip() else ''}
         res['caught'] = res['checks'][pid]['rc'] == 1 and res['checks'][pid]['violations'] > 0
+        res['quiet'] = all(v['rc'] == 0 and v['violations'] == 0 for v in res['checks'].values())
     finally:
         drop_copy(d)
     return res
@@ -101,13 +104,14 @@ def main():
     ap.add_argument('--seed', type=int, default=1)
     ap.add_argument('--timeout', type=int, default=3600)
     ap.add_argument('--no-write', action='store_true')
+    ap.add_argument('--dir', default='seeded', help="'seeded' (breaking changes: a VIOLATION is expected) or 'benign' (property-preserving changes: the check must stay quiet)")
     a = ap.parse_args()
-    names = sorted(n for n in os.listdir(os.path.join(ROOT, 'seeded'))
-                   if os.path.isfile(os.path.join(ROOT, 'seeded', n, 'patch.diff')))
+    names = sorted(n for n in os.listdir(os.path.join(ROOT, a.dir))
+                   if os.path.isfile(os.path.join(ROOT, a.dir, n, 'patch.diff')))
     if a.only:
         want = a.only.split(',')
         names = [n for n in names if any(n == w or n.startswith(w) for w in want)]
-    path = os.path.join(ROOT, 'seeded', 'AUDIT.json')
+    path = os.path.join(ROOT, a.dir, 'AUDIT.json')
     prev = {}
     if os.path.exists(path):
         prev = {r['name']: r for r in json.load(open(path))['results']}
@@ -120,7 +124,7 @@ def main():
             if k not in r and k in old:
                 r[k] = old[k]
         prev[n] = r
-        print(json.dumps({k: r.get(k) for k in ('name', 'caught', 'demo_clean_rc', 'demo_patched_rc', 'suite_patched_rc', 'error')}),
+        print(json.dumps({k: r.get(k) for k in ('name', 'caught', 'quiet', 'demo_clean_rc', 'demo_patched_rc', 'suite_patched_rc', 'error')}),
               {c: (v['rc'], v['wall_s']) for c, v in r.get('checks', {}).items()}, flush=True)
         for c, v in r.get('checks', {}).items():
             for cl in v['clauses'][:2]:
@@ -130,7 +134,15 @@ def main():
         with open(path, 'w') as f:
             json.dump({'results': results}, f, indent=1, sort_keys=True)
             f.write('\n')
-        with open(os.path.join(ROOT, 'seeded', 'AUDIT.md'), 'w') as f:
+        if a.dir != 'seeded':
+            with open(os.path.join(ROOT, a.dir, 'AUDIT.md'), 'w') as f:
+                f.write('# Property-preserving changes vs. checks (written by tools/seeded_audit.py --dir benign): every check must stay quiet\n\n')
+                f.write('| change | property | suite green with patch | checks run (exit code, seconds) | quiet |\n|---|---|---|---|---|\n')
+                for r in results:
+                    f.write(f"| {r['name']} | {r['property']} | {'yes' if r.get('suite_patched_rc') == 0 else r.get('suite_patched_rc')} | "
+                            f"{ {c: (v['rc'], v['wall_s']) for c, v in r.get('checks', {}).items()} } | {'yes' if r.get('quiet') else '**NO**'} |\n")
+            return 0
+        with open(os.path.join(ROOT, a.dir, 'AUDIT.md'), 'w') as f:
             f.write('# Seeded changes vs. checks (written by tools/seeded_audit.py)\n\n')
             f.write('| seeded change | property | suite green with patch | demo fails with / passes without | own check (tier) | caught | first failing clause |\n|---|---|---|---|---|---|---|\n')
             for r in results:
